@@ -98,6 +98,23 @@ def aggregate(prop: str, tier: str, verif_seed: int, results: list,
                 crash_points[f"{c.get('kind')}/{cls}"] += 1
                 distinct_crash.add((r.get('topo'), c.get('kind'),
                                     c.get('step')))
+    sweep_fams = collections.defaultdict(lambda: {'members': 0, 'fired': 0,
+                                                  'max_step_fired': 0})
+    sweep_points = set()
+    for r in ok:
+        sw = r.get('sweep')
+        if not sw:
+            continue
+        f = sweep_fams[sw['family']]
+        f['members'] += 1
+        f['stride'] = sw['stride']
+        f['topo'] = r.get('topo')
+        for c in r.get('crashes') or []:
+            if c.get('fired'):
+                f['fired'] += 1
+                f['max_step_fired'] = max(f['max_step_fired'], sw['step'])
+                sweep_points.add((sw['family'], c.get('victim'),
+                                  sw['step']))
     samples = [r['sample'] for r in results if 'sample' in r][:3]
     if not samples and ok:
         samples = [{'seed': ok[0]['seed'], 'topology': ok[0].get('topo')}]
@@ -136,6 +153,19 @@ def aggregate(prop: str, tier: str, verif_seed: int, results: list,
         'preempt_gap_histogram': dict(gaps),
         'crash_points_fired': dict(crash_points),
         'distinct_crash_points': len(distinct_crash),
+        'crash_point_sweeps': {
+            'rule': ('a sweep family fixes workload, topology, policy and '
+                     'scheduler seed and enumerates (victim, scheduler step '
+                     'after the first client operation) at the family\'s '
+                     'stride; members whose step lies beyond the end of the '
+                     'run are control runs'),
+            'families': len(sweep_fams),
+            'runs': sum(f['members'] for f in sweep_fams.values()),
+            'crash_points_fired': sum(f['fired']
+                                      for f in sweep_fams.values()),
+            'distinct_family_victim_step': len(sweep_points),
+            'per_family': [dict(f) for f in list(sweep_fams.values())[:40]],
+        } if sweep_fams else None,
         'oracle_info': dict(info),
         'violation_signatures': dict(sigs),
     }
